@@ -37,9 +37,45 @@ METHODS = ['emit', 'disconnect', 'enter_room', 'leave_room', 'close_room',
            'callback']
 
 
+class _Kill(BaseException):
+    """What a green-thread kill looks like: not an Exception subclass."""
+
+
+def _raise_exit():
+    raise SystemExit(3)
+
+
+def _raise_kill():
+    raise _Kill()
+
+
+def _raise_cancelled():
+    import asyncio
+    raise asyncio.CancelledError()
+
+
+def _raise_value_error():
+    raise ValueError('bad state')
+
+
+class _LoadRaises:
+    """A pickle that is well-formed but whose loading raises."""
+
+    def __init__(self, fn):
+        self.fn = fn
+
+    def __reduce__(self):
+        return (self.fn, ())
+
+
 def gen_bad(rng, host_id, sids):
     """Returns (class, raw message)."""
-    k = rng.randrange(12)
+    k = rng.randrange(13)
+    if k == 12:
+        fn = rng.choice([_raise_exit, _raise_kill, _raise_cancelled,
+                         _raise_value_error])
+        return 'pickle_load_raises_' + fn.__name__[7:], pickle.dumps(
+            _LoadRaises(fn))
     sid = rng.choice(sids) if sids else 'nosid'
     if k == 0:
         return 'random_bytes', (bytes([rng.choice(NON_OPCODES)]) +
@@ -236,7 +272,8 @@ class HostCase:
         rng, r, ctx = self.rng, self.r, self.ctx
         cls, raw = gen_bad(rng, self.mgr.host_id, self.sids)
         as_dict = False
-        if rng.random() < 0.1 and isinstance(raw, bytes):
+        if rng.random() < 0.1 and isinstance(raw, bytes) and \
+                not cls.startswith('pickle_load_raises'):
             try:
                 v = pickle.loads(raw)
                 if isinstance(v, dict):
